@@ -195,6 +195,11 @@ fn on_point(p: &Point) {
                 }
             }
         }
+        Point::BeforePush { chan, .. } => {
+            if let Some(t) = thread_of_chan(*chan).or_else(current_thread_role) {
+                park(Role::Thread(t), "push");
+            }
+        }
         Point::Push { chan, via, full } => {
             let t = thread_of_chan(*chan).or_else(current_thread_role);
             if let Some(t) = t {
@@ -212,11 +217,10 @@ fn on_point(p: &Point) {
                             }
                         }
                         ("replay", false) => {
-                            *pk = pk.saturating_sub(1);
                             ev = Some(json!({"ev":"push","t":t,"kind":"replay","cids":[]}));
                         }
                         ("send", true) => a.refused = true,
-                        ("force", true) => *pk += 1,
+                        ("force", true) => {}
                         ("send", false) | ("force", false) => {
                             ev = Some(json!({"ev":"push","t":t,"kind":a.last_kind,
                                 "cids":a.last_cids.iter().map(|c| cid_out(*c)).collect::<Vec<_>>()}));
@@ -232,10 +236,8 @@ fn on_point(p: &Point) {
                         _ => {}
                     }
                 }
-                // The thread parks here; the push happens right after it is released, so the event
-                // is logged then. (In free-running mode a push that saw "full" may still succeed:
-                // it counts as "maybe refused".)
-                park(Role::Thread(t), "push");
+                // (In free-running mode a push that saw "full" may still succeed: it counts as
+                // "maybe refused".)
                 if let Some(ev) = ev {
                     emit(ev);
                 }
